@@ -641,3 +641,141 @@ def sweep_c15(tier, seed):
             break
     return {"status": "violation" if viol else "ok", "cases": n, "distinct": n, "violations": viol,
             "samples": [{"seed": seed * 5003}], "kind": "bounded-native"}
+
+
+# --------------------------------------------------------------------------------------
+# C04: selective loads (CPU pre-selection by Hilbert keys) equal filtered full loads
+# --------------------------------------------------------------------------------------
+def selective_case(seed, adversarial=True):
+    import contextlib
+    import io
+
+    import numpy as np
+    import osyris
+
+    rw = _writer()
+    rng = random.Random(seed)
+    ndim = 3
+    levelmin = 2
+    levelmax = rng.choice([2, 3, 4])
+    ncpu = rng.choice([2, 3, 5, 8])
+    hydro_vars = ["density", "pressure"]
+    tmp = tempfile.mkdtemp(prefix="c04_")
+    try:
+        total = 8 ** (levelmax + 1)
+        if adversarial:
+            # bound keys placed right at / next to the keys of oct centres of coarse octs
+            cand = set()
+            for lev in range(1, levelmax + 1):
+                n = 2 ** lev
+                for _ in range(6):
+                    c = [(rng.randrange(n) + 0.5) / n for _ in range(3)]
+                    k = rw.point_key(c, 3, levelmax)
+                    cand.update([k, k + 1, max(k - 1, 1)])
+            keys = sorted(k for k in cand if 0 < k < total)
+            picks = sorted(rng.sample(keys, min(ncpu - 1, len(keys))))
+            bound_keys = [0] + picks + [total]
+            ncpu = len(bound_keys) - 1
+        else:
+            bound_keys = rw.default_bound_keys(3, ncpu, levelmax)
+        octs = rw.build_tree(ndim, levelmin, levelmax, rng=rng, ncpu=ncpu, bound_keys=bound_keys, variables=hydro_vars,
+                             refine_fraction=rng.choice([0.0, 0.2, 0.5]))
+        rw.write_output(tmp, 1, octs, ndim=ndim, ncpu=ncpu, levelmin=levelmin, levelmax=levelmax, hydro_vars=hydro_vars,
+                        bound_keys=bound_keys, ghosts=rw.random_ghosts(octs, ncpu, rng))
+        quiet = contextlib.redirect_stdout(io.StringIO())
+        with quiet:
+            full = osyris.RamsesDataset(1, path=tmp).load()
+        fm = full["mesh"]
+        P = np.stack([np.asarray(getattr(fm["position"], c).values, float) for c in "xyz"], axis=1)
+        rho = np.asarray(fm["density"].values, float)
+        nfin = 2 ** levelmax
+        desc = {"seed": seed, "levelmax": levelmax, "ncpu": ncpu, "bound_keys": bound_keys}
+        leaf_rows = [r for r in range(len(rho))]
+        for trial in range(8):
+            axes = rng.sample("xyz", rng.choice([1, 2, 3]))
+            sel, lims = {}, {}
+            small = trial >= 6 and leaf_rows  # a box one finest cell wide centred on the centre of a (coarse) leaf
+            if small:
+                axes = list("xyz")
+                coarse = np.argsort(np.asarray(fm["level"].values))[: max(1, len(rho) // 4)]
+                row = int(rng.choice(list(coarse)))
+                for k, a in enumerate("xyz"):
+                    lo, hi = P[row, k] - 0.5 / nfin, P[row, k] + 0.5 / nfin
+                    lims[a] = (lo, hi)
+                    sel["position_" + a] = (lambda x, lo=lo, hi=hi: (x >= osyris.Array(lo, unit="cm")) & (x <= osyris.Array(hi, unit="cm")))
+                axes = []
+            for a in axes:
+                # interval containing at least one finest cell centre; sizes from one finest cell up
+                i0 = rng.randrange(nfin)
+                w = rng.choice([1, 1, 2, 3, nfin // 2, nfin])
+                i1 = min(nfin - 1, i0 + w - 1)
+                lo, hi = i0 / nfin, (i1 + 1) / nfin
+                lims[a] = (lo, hi)
+                sel["position_" + a] = (lambda x, lo=lo, hi=hi: (x >= osyris.Array(lo, unit="cm")) & (x <= osyris.Array(hi, unit="cm")))
+            thr = float(np.median(rho)) if rng.random() < 0.5 else None
+            if thr is not None:
+                sel["density"] = lambda d, thr=thr: d >= osyris.Array(thr, unit="g/cm**3")
+            with quiet:
+                ds = osyris.RamsesDataset(1, path=tmp).load(select={"mesh": sel})
+            keep = np.ones(len(rho), dtype=bool)
+            for a, (lo, hi) in lims.items():
+                k = "xyz".index(a)
+                keep &= (P[:, k] >= lo) & (P[:, k] <= hi)
+            if thr is not None:
+                keep &= rho >= thr
+            want = int(keep.sum())
+            got_mesh = ds["mesh"] if "mesh" in ds.keys() else None
+            n_got = 0 if (got_mesh is None or len(got_mesh.keys()) == 0) else got_mesh.shape[0]
+            if n_got != want:
+                return {"what": "selection %s%s: %d rows, filtered full load has %d" % (lims, " + density" if thr else "", n_got, want),
+                        "input": dict(desc, limits=lims)}
+            if want:
+                # the same rows with identical values (files are read in the order of the pre-selected cpu
+                # list, so rows are compared as multisets)
+                gp = np.stack([np.asarray(getattr(got_mesh["position"], c).values, float) for c in "xyz"]
+                              + [np.asarray(got_mesh["density"].values, float), np.asarray(got_mesh["level"].values, float)], axis=1)
+                fp = np.concatenate([P[keep], rho[keep][:, None], np.asarray(fm["level"].values, float)[keep][:, None]], axis=1)
+                gs = gp[np.lexsort(gp.T[::-1])]
+                fs = fp[np.lexsort(fp.T[::-1])]
+                if not np.array_equal(gs, fs):
+                    return {"what": "selection %s: rows differ from the filtered full load" % (lims,), "input": dict(desc, limits=lims)}
+        # explicit cpu list
+        cl = sorted(rng.sample(range(1, ncpu + 1), rng.randint(1, ncpu)))
+        with quiet:
+            ds = osyris.RamsesDataset(1, path=tmp).load(cpu_list=cl)
+        keep = np.isin(np.asarray(fm["cpu"].values), cl)
+        nk = int(keep.sum())
+        got_n = 0 if len(ds["mesh"].keys()) == 0 else ds["mesh"].shape[0]
+        if got_n != nk or (nk and not np.array_equal(np.asarray(ds["mesh"]["density"].values, float), rho[keep])):
+            return {"what": "cpu_list=%s does not return exactly the cells owned by those cpus" % cl, "input": desc}
+        return None
+    finally:
+        shutil.rmtree(tmp, ignore_errors=True)
+
+
+def replay_selective(case, model, rec):
+    for s in range(40):
+        try:
+            r = selective_case(9100 + s)
+        except Exception as e:
+            r = {"what": "exception %r" % (e,), "input": {"seed": 9100 + s}}
+        if r:
+            return {"reproduced": True, "input": r["input"], "observed": r["what"]}
+    return {"reproduced": False}
+
+
+def sweep_c04(tier, seed):
+    n = 30 if tier == "quick" else 600
+    viol = []
+    for k in range(n):
+        try:
+            r = selective_case(seed * 6007 + k, adversarial=(k % 3 != 0))
+        except Exception as e:
+            import traceback
+
+            r = {"what": "exception %r %s" % (e, traceback.format_exc(limit=4)), "input": {"seed": seed * 6007 + k}}
+        if r:
+            viol.append({"name": "C04.native.selective", "input": r["input"], "observed": r["what"]})
+            break
+    return {"status": "violation" if viol else "ok", "cases": n * 7, "distinct": n * 7, "violations": viol,
+            "samples": [{"seed": seed * 6007}], "kind": "bounded-native"}
